@@ -73,7 +73,7 @@ pub fn id() -> BoxedStrategy<String> {
 /// ids drawn from a small pool (so that filters / statistics see collisions)
 pub fn pool_id() -> BoxedStrategy<String> {
     prop::sample::select(vec![
-        "", "A", "APP", "APP1", "CTX", "ECU", "é", "€a", "TEST", "Ab7 ", "NONE", "APP ", "app", "Ecu",
+        "", "A", "APP", "APP1", "CTX", "ECU", "é", "€a", "TEST", "Ab7 ", "NONE", "APP ", "app", "Ecu", "Ł",
     ])
     .prop_map(|s| s.to_string())
     .boxed()
@@ -651,7 +651,7 @@ pub fn message(p: MsgParams) -> BoxedStrategy<RMsg> {
     (
         (flags_ueh, any::<u8>(), storage).prop_map(|((f, u), m, s)| (f, u, m, s)),
         (idg.clone(), idg.clone(), idg.clone(), idg),
-        (any::<u32>(), any::<u32>(), any::<u32>(), any::<u32>()),
+        (any::<u32>(), any::<u32>(), any::<u32>(), any::<u32>(), 0u8..120),
         (
             fill,
             magic,
@@ -670,7 +670,7 @@ pub fn message(p: MsgParams) -> BoxedStrategy<RMsg> {
                 };
                 spec.prop_map(move |(msin, spec)| {
                     let (sh_ecu, ecu, apid, ctid) = ids.clone();
-                    let (secs, micros, seid, tmsp) = nums;
+                    let (secs, micros, seid, tmsp, rel) = nums;
                     // flags: version bits 5-7 and WEID/WSID/WTMS/MSBF from the random byte, UEH as chosen
                     let htyp = (flags & !UEH) | if ueh { UEH } else { 0 };
                     let payload = match spec.clone() {
@@ -706,11 +706,93 @@ pub fn message(p: MsgParams) -> BoxedStrategy<RMsg> {
                         },
                         payload,
                     };
-                    finish(m, fill)
+                    finish(relate(m, rel), fill)
                 })
             },
         )
         .boxed()
+}
+
+/// Relations between fields that are drawn independently otherwise (about 8 % of the messages): the same value in
+/// two roles, one id a prefix of another, a number whose bytes spell an id, a carried record that continues its carrier.
+fn relate(mut m: RMsg, rel: u8) -> RMsg {
+    let prefix = |s: &str| -> String {
+        let n = s.chars().count();
+        s.chars().take(n.saturating_sub(1).max(1).min(n)).collect()
+    };
+    match rel {
+        0 => {
+            if let (Some(st), Some(e)) = (&m.storage, &mut m.ecu) {
+                *e = st.ecu.clone();
+            }
+        }
+        1 => {
+            if let (Some(st), Some(e)) = (&m.storage, &mut m.ecu) {
+                *e = prefix(&st.ecu);
+            }
+        }
+        2 => {
+            if let (Some(st), Some(e)) = (&mut m.storage, &m.ecu) {
+                st.ecu = prefix(e);
+            }
+        }
+        3 => {
+            if let Some(x) = &mut m.ext {
+                x.ctid = x.apid.clone();
+            }
+        }
+        4 => {
+            if let (Some(x), Some(e)) = (&mut m.ext, &m.ecu) {
+                x.ctid = e.clone();
+            }
+        }
+        5 => {
+            if let (Some(x), Some(e)) = (&m.ext, &mut m.ecu) {
+                *e = x.apid.clone();
+            }
+        }
+        6 => {
+            // the session id spells the ECU id
+            if let (Some(e), Some(sid)) = (&m.ecu, &mut m.seid) {
+                let mut b = [0u8; 4];
+                for (i, x) in e.bytes().take(4).enumerate() {
+                    b[i] = x;
+                }
+                *sid = u32::from_be_bytes(b);
+            }
+        }
+        7 => {
+            if let (Some(t), Some(sid)) = (&mut m.tmsp, &m.seid) {
+                *t = *sid;
+            }
+        }
+        8 | 9 => {
+            // a carried run of records continues the carrier: same storage ECU id, counter + 1 (and, for 9, a header
+            // ECU id that agrees with its storage id while the carrier's differ)
+            let (outer_ecu, next) = match &m.storage {
+                Some(st) => (st.ecu.clone(), m.mcnt.wrapping_add(1)),
+                None => return m,
+            };
+            if let RPayload::NonVerbose(_, d) | RPayload::Control(_, d) = &mut m.payload {
+                if let Some(o) = d.windows(4).position(|w| w == b"DLT\x01") {
+                    if o <= 3 && d.len() >= o + 24 {
+                        let mut id = [0u8; 4];
+                        for (i, x) in outer_ecu.bytes().take(4).enumerate() {
+                            id[i] = x;
+                        }
+                        d[o + 12..o + 16].copy_from_slice(&id);
+                        d[o + 17] = next;
+                        if d[o + 16] & WEID != 0 && rel == 9 {
+                            let (a, b) = d.split_at_mut(o + 20);
+                            b[..4].copy_from_slice(&a[o + 12..o + 16]);
+                        }
+                    }
+                }
+            }
+        }
+        _ => {}
+    }
+    m
 }
 
 /// What follows a message in the buffer (C01, C04, C06).
